@@ -476,10 +476,11 @@ pub fn run(ctx: &mut Ctx) -> Result<(), Violation> {
         cfg.max_fix_nest = 3;
         cfg.fix_var_bias = 120;
         cfg.big_consts = false;
-        let ast = if t.chance(110) {
-            gen::chain_fix(&mut t, &cfg)
-        } else {
-            gen::fix_formula(&mut t, &cfg)
+        let ast = match t.choose(8) {
+            0..=2 => gen::chain_fix(&mut t, &cfg),
+            // chains as long as the lattice allows (2^k applications over k variables)
+            3 => gen::path_chain_fix(&mut t, &cfg),
+            _ => gen::fix_formula(&mut t, &cfg),
         };
         // keep the candidate space within bounds: count non-binder names
         let mut all = Vec::new();
